@@ -52,14 +52,16 @@ _c('C09', 'Proved: transition yields a new state iff exit AND enter succeed, oth
    'Coq proof over translated transition kernel + step/stack model; correspondence; before/after deep-compare monitor')
 _c('C10', 'Proved: the regenerated membership test means public-or-shares-a-fleet; every accepted enter() has checked access for every entity the activity names (incl. the station behind a base). '
           'Proved over ALL finite histories of step operations, any controller (C10_access_over_histories): every entity named by every vehicle\'s current activity (station, base, station behind the base, '
-          'assigned request, carried request) grants access to the vehicle\'s membership; a vehicle\'s membership never changes. PARTIAL: built-in dispatcher pairing decided by the dispatcher engine/monitor.',
-   'Coq proof: translated membership kernels + enter-guard theorem + state invariant by induction over operation histories; correspondence with fleet profiles; monitor')
+          'assigned request, carried request) grants access to the vehicle\'s membership; a vehicle\'s membership never changes. The built-in dispatcher\'s two filter closures are regenerated from dispatcher.py: solving for a fleet it offers only vehicles and requests that grant that fleet access (C10_dispatcher_offers_only_fleet_members). '
+          'PARTIAL: that the solver\'s pairs are drawn from the offered lists is decided by the dispatcher engine.',
+   'Coq proof: translated membership kernels + translated dispatcher filters + enter-guard theorem + state invariant by induction over operation histories; correspondence with fleet profiles; monitor')
 _c('C15', 'Proved for any controller output and released rows: only tick changes the clock (frame theorem), a full step adds exactly dt, n steps add n*dt, run(a++b) = run b . run a. '
           'The implementation side of composition (cursors, generators, reporter) is decided by split-run correspondence.',
    'Coq proof (frame theorem + translated tick) + split-run differential correspondence')
 _c('C17', 'Proved: entering DispatchTrip assigns, leaving it by any instruction unassigns, running out of energy on the way releases the request (repaired code path). '
           'Proved over ALL finite histories of step operations with instructions from any controller (C17_invariant_over_histories, via the macro frame theorem): a waiting request that records '
-          'a dispatched vehicle names an existing vehicle whose activity is DispatchTrip to exactly that request. PARTIAL: "at most one vehicle per request under the built-in dispatcher" decided by the dispatcher engine.',
+          'a dispatched vehicle names an existing vehicle whose activity is DispatchTrip to exactly that request. The dispatcher\'s request filter, regenerated from dispatcher.py, never offers a request that already records a vehicle (C17_dispatcher_offers_only_unassigned_requests). '
+          'PARTIAL: "at most one vehicle per request under the built-in dispatcher" additionally needs that the solver pairs distinct requests from the offered list (dispatcher engine).',
    'Coq proof: state invariant by induction over operation histories (macro frame theorem) + translated assign/unassign kernels; correspondence; monitor')
 _c('C18', 'Proved: the update order is non-queued first then queued sorted by the injective key (enqueue_time, id); every vehicle is processed; of two queued vehicles the earlier is offered a freed plug first. '
           'Proved from any state satisfying the counts invariant (C18_offered_in_queue_order): while the queued vehicles are processed no plug count ever grows, so a vehicle that finds a plug free at its turn implies every '
@@ -73,8 +75,9 @@ _c('C19', 'Proved: each state-changing primitive files exactly one event carryin
 _c('C20', 'Proved: regenerated time_in_range is start-inclusive/end-exclusive with wrap-around and empty when start=end; time of day periodic; a driver update sets availability to the schedule verdict at the '
           'step start and files an event exactly on a flip. Proved for whole steps and runs, instruction lists of any controller (C20_step_follows_schedule, C20_run_follows_schedule): after the driver updates of a step '
           'every human driver is available exactly when the step\'s start time lies in the shift, and no other operation of the step changes a driver state (C20_only_driver_updates_change_drivers, macro frame theorem). '
-          'PARTIAL: dispatcher never assigning off-shift drivers decided by the dispatcher engine.',
-   'Coq proof: translated time_in_range + driver-update lemma + fold over all vehicles + driver frame (macro frame theorem) over whole steps and runs; correspondence; shift monitor; real-pipeline engine')
+          'The dispatcher\'s vehicle filter, regenerated from dispatcher.py, rejects every vehicle whose driver is unavailable (C20_dispatcher_never_offers_off_shift_driver). '
+          'PARTIAL: that the solver\'s pairs are drawn from the offered list is decided by the dispatcher engine.',
+   'Coq proof: translated time_in_range + translated dispatcher vehicle filter + driver-update lemma + fold over all vehicles + driver frame (macro frame theorem) over whole steps and runs; correspondence; shift monitor; real-pipeline engine')
 
 _c('C06', 'Proved for all link lengths, speeds, step lengths and positions, over kernels regenerated from linktraversal.py/routetraversal.py/units.py/h3_ops.py: one link is skipped (degenerate), driven completely '
           'consuming exactly its whole-second travel time, or split at ONE point on the link into start->p / p->end; over a whole route never more than the step time is used, the odometer increment is the length '
@@ -89,7 +92,7 @@ _c('C11', 'Proved: regenerated stop conditions are key<now; over ANY sorted file
 
 _c('C12', 'Proved for matrices of any size: cert_sound (weak LP duality for the rectangular assignment problem: if the executable checker accepts (sigma,u,w) no assignment of all rows to distinct columns is cheaper) '
           'and, under scipy\'s documented contract, find_assignment\'s glue returns distinct vehicles x distinct requests drawn from the offered lists, min(n,m) of them. scipy is an oracle; its optimality is validated on every '
-          'generated instance by running the verified checker (vm_compute) on the real Dispatcher\'s answer with potentials from an independent Hungarian implementation. Eligibility filters are compared with an independent restatement (relational correspondence).',
+          'generated instance by running the verified checker (vm_compute) on the real Dispatcher\'s answer with potentials from an independent Hungarian implementation. The two eligibility filter closures are regenerated from dispatcher.py and characterised (C12_offered_vehicles_are_eligible, C12_offered_requests_are_unassigned); they are also compared with an independent restatement (relational correspondence).',
    'Coq proof of a certificate checker (LP duality) + glue validity under the library contract; per-instance certificate validation of the real Dispatcher; independent eligibility oracle',
    'scipy.optimize.linear_sum_assignment is trusted only through per-instance certificates.')
 
